@@ -237,4 +237,64 @@ Proof.
     + apply N.leb_gt in E1. lia.
 Qed.
 
+
+(* the generating constructors *)
+Definition table (r c : N) (f : N -> N -> T) : list (list T) :=
+  map (fun i => map (fun j => f i j) (nrange c)) (nrange r).
+
+Lemma length_nrange n : length (nrange n) = N.to_nat n.
+Proof. unfold nrange. now rewrite map_length, seq_length. Qed.
+
+Lemma table_uniform r c f : Forall (fun row => length row = N.to_nat c) (table r c f).
+Proof.
+  unfold table. apply Forall_forall. intros row Hin. apply in_map_iff in Hin as [i [<- _]].
+  now rewrite map_length, length_nrange.
+Qed.
+
+Lemma concat_repeat (v : T) a b : concat (repeat (repeat v b) a) = repeat v (a * b).
+Proof. induction a as [|a IH]; [reflexivity|]. cbn [repeat concat Nat.mul]. now rewrite IH, repeat_app. Qed.
+
+Theorem generated_constructors :
+  (forall r c f, match from_fn (r, c) f with
+                 | Ok s => 1 <= r /\ 1 <= c /\ Inv s /\ abs s = table r c f
+                 | _ => r = 0 \/ c = 0 \/ usize_max < r * c end) /\
+  (forall (v : T) r c, match empty_ctor v (r, c) with
+                 | Ok s => 1 <= r /\ 1 <= c /\ Inv s /\ abs s = repeat (repeat v (N.to_nat c)) (N.to_nat r)
+                 | _ => r = 0 \/ c = 0 end).
+Proof.
+  split.
+  - intros r c f. unfold from_fn. cbn [fst snd]. unfold pairs.
+    rewrite (map_list_prod (fun p => f (fst p) (snd p))). cbn [fst snd]. fold (table r c f).
+    pose proof (table_uniform r c f) as Hall.
+    assert (Hlen : length (table r c f) = N.to_nat r) by (unfold table; now rewrite map_length, length_nrange).
+    assert (Hcl : nlen (concat (table r c f)) = r * c).
+    { unfold nlen. rewrite (length_concat_uniform _ _ Hall), Hlen. lia. }
+    unfold from_flat_row_major. cbn [fst snd]. rewrite Hcl, N.eqb_refl, andb_true_r.
+    destruct (r * c <=? usize_max) eqn:E; [|apply N.leb_gt in E; auto].
+    destruct (concat (table r c f)) as [|x l] eqn:Ec.
+    + unfold nlen in Hcl. cbn in Hcl. lia.
+    + rewrite <- Ec. assert (Hrc : 1 <= r /\ 1 <= c) by (unfold nlen in Hcl; cbn [length] in Hcl; nia).
+      destruct Hrc as [Hr Hc].
+      assert (Hne : table r c f <> []) by (intros E0; rewrite E0 in Hlen; cbn in Hlen; lia).
+      assert (Hrect : rect (table r c f)) by (apply (rect_uniform _ _ Hall Hne); lia).
+      destruct (of_rows_abs _ Hrect) as [H1 H2]. unfold of_rows in H1, H2.
+      rewrite (ncols_uniform _ _ Hall Hne) in H1, H2. unfold nlen in H1, H2. rewrite Hlen, !N2Nat.id in H1, H2.
+      auto.
+  - intros v r c. unfold empty_ctor. cbn [fst snd].
+    destruct (0 <? r) eqn:Er; cbn [andb]; [|apply N.ltb_ge in Er; left; lia].
+    destruct (0 <? c) eqn:Ec; [|apply N.ltb_ge in Ec; right; lia].
+    apply N.ltb_lt in Er, Ec.
+    set (m := repeat (repeat v (N.to_nat c)) (N.to_nat r)).
+    assert (Hall : Forall (fun row => length row = N.to_nat c) m).
+    { apply Forall_forall. intros row Hin. apply repeat_spec in Hin. subst row. apply repeat_length. }
+    assert (Hlen : length m = N.to_nat r) by apply repeat_length.
+    assert (Hne : m <> []) by (intros E0; rewrite E0 in Hlen; cbn in Hlen; lia).
+    assert (Hrect : rect m) by (apply (rect_uniform _ _ Hall Hne); lia).
+    assert (Hcm : concat m = repeat v (N.to_nat (r * c))).
+    { unfold m. replace (N.to_nat (r * c)) with (N.to_nat r * N.to_nat c)%nat by lia. apply concat_repeat. }
+    destruct (of_rows_abs _ Hrect) as [H1 H2]. unfold of_rows in H1, H2.
+    rewrite (ncols_uniform _ _ Hall Hne), Hcm in H1, H2. unfold nlen in H1, H2. rewrite Hlen, !N2Nat.id in H1, H2.
+    split; [lia|split; [lia|split; [exact H2|exact H1]]].
+Qed.
+
 End History.
